@@ -464,6 +464,44 @@ def gen_doc_case(rng, store_case):
     return {'kind': 'doc', 'docs': docs, 'load': root.identifier, 'mut': '+'.join(sorted(applied)) or 'none'}
 
 
+SHAPES = [
+    # shared leaf below two different parents
+    [dict(k='Constant', dur='d', amps=[['A', 'a']], measurements=[['m', 0, 'd']]),
+     dict(k='Repetition', body=0, count='n'), dict(k='TimeReversal', inner=0), dict(k='Sequence', subs=[1, 2, 0])],
+    # mapping over a table inside a loop
+    [dict(k='Table', entries=[['A', [[0, 'i'], ['d', 'v', 'linear']]]]),
+     dict(k='Mapping', tmpl=0, pmap=[['v', 'w*2']], cmap=[['A', 'B']]),
+     dict(k='ForLoop', body=1, idx='i', rng=[0, 'n', 1]), dict(k='Arithmetic', lhs={'pt': 2}, op='*', rhs='a')],
+    # atomic composition
+    [dict(k='Function', ex='a*t', dur=4, ch='A'), dict(k='Point', points=[[0, 'v'], [4, 1, 'linear']], chans=['B']),
+     dict(k='AtomicMulti', subs=[0, 1], dur=4), dict(k='Parallel', tmpl=2, over=[['C', 'x']])],
+]
+
+
+def exhaustive_cases(tier):
+    """every subset of identifiers on fixed 4-node shapes (root always named); thorough: all backends and both the
+    root-only and the children-first store histories"""
+    import copy
+    out = []
+    n = 0
+    for si, shape in enumerate(SHAPES):
+        for mask in range(8):
+            nodes = copy.deepcopy(shape)
+            for j in range(3):
+                nodes[j]['id'] = ('e%d' % j) if mask >> j & 1 else None
+            nodes[3]['id'] = 'root'
+            named = [j for j in range(3) if mask >> j & 1]
+            histories = [([3], [[0, 0]])]
+            if tier != 'quick' and named:
+                histories.append(([3] + named, [[0, k + 1] for k in range(len(named))] + [[0, 0]]))
+            for roots, ops in histories:
+                for b in (BACKENDS if tier != 'quick' else [BACKENDS[n % 3]]):
+                    n += 1
+                    out.append({'kind': 'store', 'nodes': copy.deepcopy(nodes), 'roots': roots, 'ops': ops, 'backend': b,
+                                'flags': ['exhaustive']})
+    return out
+
+
 def gen_cases(rng, tier, n_store=None, n_doc=None):
     if n_store is None:
         n_store = 300 if tier == 'quick' else 3000
@@ -487,4 +525,4 @@ def gen_cases(rng, tier, n_store=None, n_doc=None):
             docs.append(gen_doc_case(rng, c))
         except Exception:   # noqa
             continue
-    return cases + docs
+    return cases + docs + (exhaustive_cases(tier) if n_doc != 0 else [])
